@@ -4,8 +4,11 @@
 -/
 import CogentModel.Model.FeatureSeq
 import CogentModel.Proofs.FeatureView
+import CogentModel.Proofs.FeatureOnView
+import CogentModel.Proofs.FeatureStrided
+import CogentModel.Proofs.FeatureCopy
 namespace CogentModel.FeatureView
-open CogentModel.View CogentModel.SeqWrap
+open CogentModel.View CogentModel.SeqWrap CogentModel.FeatureSpec
 
 theorem sliceIdx_realOf (f : Feat) : sliceIdx f = (realOf f.spans).flatMap fun p => irange p.1 p.2 := by
   unfold sliceIdx realOf
@@ -41,4 +44,219 @@ theorem mapEnd_sorted (p : Int × Int) (r : List (Int × Int))
     have h1 := (List.pairwise_cons.mp hs).1 _ hl
     have h2 := hp _ (List.mem_cons_of_mem _ hl)
     omega
+
+/-! ## the contiguous form composed with `featureOnView` (wave 2) -/
+
+/-- spans as `make_feature` leaves them: ordered, pairwise disjoint, non-empty -/
+def Disjoint (D : List (Int × Int)) : Prop := D.Pairwise (fun a b => a.2 ≤ b.1) ∧ ∀ q ∈ D, q.1 < q.2
+
+theorem seg_head (a b : Int) (h : a < b) : (seg a b).head? = some a := by
+  unfold seg
+  have : (b - a).toNat = (b - a).toNat - 1 + 1 := by omega
+  rw [this, List.range_succ_eq_map]
+  simp
+
+theorem seg_last (a b : Int) (h : a < b) : (seg a b).getLast? = some (b - 1) := by
+  have := seg_succ a (b - 1) (by omega)
+  rw [show b - 1 + 1 = b by omega] at this
+  rw [this]; simp
+
+theorem seg_ne_nil (a b : Int) (h : a < b) : seg a b ≠ [] := by
+  intro hh; have := seg_head a b h; rw [hh] at this; cases this
+
+theorem flatMap_seg_head (c : Int) (p : Int × Int) (r : List (Int × Int)) (hp : p.1 < p.2) :
+    ((p :: r).flatMap (fun q => seg (c + q.1) (c + q.2))).head? = some (c + p.1) := by
+  rw [List.flatMap_cons, List.head?_append, seg_head _ _ (by omega)]; rfl
+
+theorem flatMap_seg_last (c : Int) (D : List (Int × Int)) (hne : D ≠ []) (hp : ∀ q ∈ D, q.1 < q.2) :
+    (D.flatMap (fun q => seg (c + q.1) (c + q.2))).getLast? = some (c + (D.getLast hne).2 - 1) := by
+  induction D with
+  | nil => exact absurd rfl hne
+  | cons p r ih =>
+    rw [List.flatMap_cons]
+    cases r with
+    | nil =>
+      simp only [List.flatMap_nil, List.append_nil, List.getLast_singleton]
+      rw [seg_last _ _ (by have := hp p List.mem_cons_self; omega)]
+    | cons q r' =>
+      have := ih (List.cons_ne_nil _ _) (fun x hx => hp x (List.mem_cons_of_mem _ hx))
+      rw [List.getLast?_append, this]
+      simp [List.getLast_cons]
+
+theorem hull_flatMap (c : Int) (D : List (Int × Int)) (hne : D ≠ []) (hp : ∀ q ∈ D, q.1 < q.2) :
+    hullOf (D.flatMap (fun q => seg (c + q.1) (c + q.2))) = seg (c + (D.head hne).1) (c + (D.getLast hne).2) := by
+  unfold hullOf
+  rw [flatMap_seg_last c D hne hp]
+  cases D with
+  | nil => exact absurd rfl hne
+  | cons p r =>
+    rw [flatMap_seg_head c p r (hp p List.mem_cons_self)]
+    simp only [List.head_cons]
+    congr 1; omega
+
+theorem contigIdx_disjoint (f : Feat) (D : List (Int × Int)) (h : realOf f.spans = D) (hne : D ≠ []) (hd : Disjoint D) :
+    contigIdx f = seg (D.head hne).1 (D.getLast hne).2 := by
+  cases D with
+  | nil => exact absurd rfl hne
+  | cons p r =>
+    unfold contigIdx
+    rw [h]
+    simp only []
+    rw [mapStart_sorted p r hd.1 hd.2, mapEnd_sorted p r hd.1 hd.2]
+    rfl
+
+theorem clipped_disjoint (L p0 : Int) (spans : List (Int × Int)) (hs : Disjoint spans) :
+    Disjoint ((spans.map (fun sp => (sp.1 - p0, sp.2 - p0))).filterMap (clipped L)) := by
+  constructor
+  · apply List.Pairwise.filterMap (R := fun a b : Int × Int => a.2 ≤ b.1)
+    · intro a a' haa b hb b' hb'
+      unfold clipped at hb hb'
+      split at hb <;> split at hb' <;> simp_all
+      obtain ⟨rfl, rfl⟩ := hb; obtain ⟨rfl, rfl⟩ := hb'
+      simp only []; omega
+    · rw [List.pairwise_map]
+      exact hs.1.imp (fun h => by simp only []; omega)
+  · intro q hq
+    obtain ⟨sp, _, h2⟩ := List.mem_filterMap.mp hq
+    unfold clipped at h2
+    split at h2
+    · simp only [Option.some.injEq] at h2; subst h2; simp only []; omega
+    · cases h2
+
+theorem mirror_disjoint (L : Int) (C : List (Int × Int)) (hC : Disjoint C) :
+    Disjoint ((C.map (fun p => (L - p.2, L - p.1))).reverse) := by
+  constructor
+  · rw [List.pairwise_reverse, List.pairwise_map]
+    exact hC.1.imp (fun h => by simp only []; omega)
+  · intro q hq
+    obtain ⟨x, hx, rfl⟩ := List.mem_map.mp (List.mem_reverse.mp hq)
+    have := hC.2 x hx
+    simp only []; omega
+
+theorem featureOnView_contig_spec (v : View) (h : UnitView v) (hl : 0 < len v) (minus : Bool) (spans : List (Int × Int))
+    (hsp : ∀ sp ∈ spans, 0 ≤ sp.1 ∧ sp.1 < sp.2) (hdis : spans.Pairwise (fun a b => a.2 ≤ b.1)) :
+    ∃ f, featureOnView v minus spans = .ok f ∧
+      contigPositions v f = denoteContig spans minus (segStart v) (segStart v + len v) := by
+  have hD : Disjoint spans := ⟨hdis, fun q hq => (hsp q hq).2⟩
+  have hsorted : spans.Pairwise (fun a b => a.1 ≤ b.1) :=
+    (List.Pairwise.and_mem.mp hdis).imp (fun ⟨ha, _, hab⟩ => by have := hsp _ ha; omega)
+  have hrel1 : ∀ sp ∈ spans.map (fun sp => (sp.1 - segStart v, sp.2 - segStart v)), sp.1 ≤ sp.2 := by
+    intro sp hm
+    obtain ⟨x, hx, rfl⟩ := List.mem_map.mp hm
+    have := hsp x hx
+    simp only []; omega
+  have hrel2 : (spans.map (fun sp => (sp.1 - segStart v, sp.2 - segStart v))).Pairwise (fun a b => a.1 ≤ b.1) := by
+    rw [List.pairwise_map]
+    exact hsorted.imp (fun hab => by simp only []; omega)
+  obtain ⟨f, hf, hrev, hreal⟩ := makeFeature_spec (len v) (decide (v.step < 0)) minus _ hl hrel1 hrel2
+  have hlen := len_unit v h
+  have hCd := clipped_disjoint (len v) (segStart v) spans hD
+  have hcore := positions_core (segStart v) (len v) spans
+  generalize hC : (spans.map (fun sp => (sp.1 - segStart v, sp.2 - segStart v))).filterMap (clipped (len v)) = C at hreal hCd hcore
+  refine ⟨f, ?_, ?_⟩
+  · unfold featureOnView
+    rw [relSpans_eq v h hl spans (fun sp hx => by have := hsp sp hx; omega)]
+    exact hf
+  · unfold contigPositions denoteContig
+    simp only []
+    rw [← hcore, hrev]
+    by_cases hne : C = []
+    · -- nothing of the feature is retained
+      subst hne
+      have : realOf f.spans = [] := by rw [realOf_eq, hreal]; split <;> rfl
+      simp [contigIdx, this, hullOf]
+      cases minus <;> cases decide (v.step < 0) <;> rfl
+    · rw [hull_flatMap (segStart v) C hne hCd.2]
+      rcases h.2 with hs | hs
+      · have e1 : decide (v.step < 0) = false := by rw [hs]; rfl
+        have hvp : viewPos v = fun i => segStart v + i := by
+          funext i; unfold viewPos segStart; rw [hs]; simp
+        rw [e1] at hreal
+        simp only [Bool.false_eq_true, if_false] at hreal
+        rw [contigIdx_disjoint f C (by rw [realOf_eq, hreal]) hne hCd, hvp, seg_map_add, e1]
+        cases minus <;> simp
+      · have e1 : decide (v.step < 0) = true := by rw [hs]; rfl
+        have hvp : viewPos v = fun i => (segStart v + len v - 1) - i := by
+          funext i; unfold viewPos segStart; rw [hlen]; rw [hs]; simp; omega
+        rw [e1] at hreal
+        simp only [if_true] at hreal
+        have hne' : (C.map (fun p => (len v - p.2, len v - p.1))).reverse ≠ [] := by simpa using hne
+        rw [contigIdx_disjoint f _ (by rw [realOf_eq, hreal]) hne' (mirror_disjoint (len v) C hCd), hvp, seg_map_rev, e1]
+        have e2 : (((C.map (fun p => (len v - p.2, len v - p.1))).reverse).head hne').1 = len v - (C.getLast hne).2 := by
+          simp [List.head_reverse, List.getLast_map]
+        have e3 : (((C.map (fun p => (len v - p.2, len v - p.1))).reverse).getLast hne').2 = len v - (C.head hne).1 := by
+          simp [List.getLast_reverse, List.head_map]
+        rw [e2, e3]
+        have e4 : segStart v + len v - 1 - (len v - (C.head hne).1) + 1 = segStart v + (C.head hne).1 := by omega
+        have e5 : segStart v + len v - 1 - (len v - (C.getLast hne).2) + 1 = segStart v + (C.getLast hne).2 := by omega
+        rw [e4, e5]
+        cases minus <;> simp
+
+theorem hull_bounds (ps : List Int) (lo hi : Int) (h : ∀ x ∈ ps, lo ≤ x ∧ x < hi) :
+    ∀ x ∈ hullOf ps, lo ≤ x ∧ x < hi := by
+  intro x hx
+  unfold hullOf at hx
+  split at hx
+  · rename_i a b ha hb
+    have h1 := h a (List.mem_of_mem_head? ha)
+    have h2 := h b (List.mem_of_mem_getLast? hb)
+    have := (mem_seg _ _ _).mp hx
+    omega
+  · cases hx
+
+theorem denoteContig_bounds (spans : List (Int × Int)) (minus : Bool) (p0 p1 x : Int)
+    (h : x ∈ (denoteContig spans minus p0 p1).1) : p0 ≤ x ∧ x < p1 := by
+  unfold denoteContig at h
+  simp only [] at h
+  have hx : x ∈ hullOf (spans.flatMap (fun sp => seg (max sp.1 p0) (min sp.2 p1))) := by
+    cases minus <;> simpa using h
+  refine hull_bounds _ p0 p1 ?_ x hx
+  intro y hy
+  obtain ⟨sp, _, hy'⟩ := List.mem_flatMap.mp hy
+  have := (mem_seg _ _ _).mp hy'
+  omega
+
+theorem getSliceContig_spec (comp : Char → Char) (hcomp : ∀ x, comp (comp x) = x) (s : Seq) (hw : WF s)
+    (hn : s.nucleic = true) (hu : UnitView s.v) (hl : 0 < len s.v) (minus : Bool) (spans : List (Int × Int))
+    (hsp : ∀ sp ∈ spans, 0 ≤ sp.1 ∧ sp.1 < sp.2) (hdis : spans.Pairwise (fun a b => a.2 ≤ b.1)) :
+    ∃ f, featureOnView s.v minus spans = .ok f ∧
+      getSliceContig comp s f =
+        (denoteContig spans minus (segStart s.v) (segStart s.v + len s.v)).1.map
+          (fun p => (if minus then comp else id) (s.parent[(p - s.v.offset).toNat]!)) := by
+  obtain ⟨f, hf, hpos⟩ := featureOnView_contig_spec s.v hu hl minus spans hsp hdis
+  refine ⟨f, hf, ?_⟩
+  have hidx : ∀ i ∈ contigIdx f, 0 ≤ i ∧ i < len s.v := by
+    intro i hi
+    have hm : viewPos s.v i ∈ (contigPositions s.v f).1 := by
+      unfold contigPositions
+      simp only []
+      split
+      · rw [List.mem_reverse]; exact List.mem_map.mpr ⟨i, hi, rfl⟩
+      · exact List.mem_map.mpr ⟨i, hi, rfl⟩
+    rw [hpos] at hm
+    have hb := denoteContig_bounds _ _ _ _ _ hm
+    rw [viewPos_seg s.v hu i] at hb
+    split at hb <;> omega
+  have hjoin : (contigIdx f).map (fun i => (str comp s)[i.toNat]!) =
+      ((contigIdx f).map (viewPos s.v)).map
+        (fun p => (if s.v.step < 0 ∧ s.nucleic then comp else id) (s.parent[(p - s.v.offset).toNat]!)) := by
+    rw [List.map_map]
+    apply List.map_congr_left
+    intro i hi
+    have := hidx i hi
+    exact str_getElem comp s hw hu i this.1 this.2
+  unfold getSliceContig
+  simp only [hjoin]
+  unfold contigPositions at hpos
+  generalize hD : denoteContig spans minus (segStart s.v) (segStart s.v + len s.v) = D at hpos
+  obtain ⟨D1, D2⟩ := D
+  have hD2 : D2 = minus := by
+    have : (denoteContig spans minus (segStart s.v) (segStart s.v + len s.v)).2 = minus := rfl
+    rw [hD] at this; exact this
+  simp only [Prod.mk.injEq] at hpos
+  obtain ⟨h1, h2⟩ := hpos
+  subst hD2
+  rw [← h1, ← h2]
+  by_cases hstep : s.v.step < 0 <;> cases hr : f.reversed <;>
+    simp [hstep, hn, hr, List.map_reverse, List.map_map, Function.comp, hcomp]
 end CogentModel.FeatureView
